@@ -3,7 +3,7 @@
 import glob, json, os, re
 V = os.path.dirname(os.path.dirname(os.path.abspath(__file__)))
 rows = []
-for d in sorted(glob.glob(os.path.join(V, "seeded", "C*-m*"))):
+for d in sorted(glob.glob(os.path.join(V, "seeded", "C*-*m*"))):
     meta = json.load(open(os.path.join(d, "meta.json")))
     res = json.load(open(os.path.join(d, "result.json"))) if os.path.exists(os.path.join(d, "result.json")) else {"checks": {}}
     name = os.path.basename(d)
